@@ -12,11 +12,18 @@ def body_nodoc(fn):
     return [s for s in fn.body if not is_docstring(s)]
 
 
-def list_ops(node):
+def list_ops(node, cls=None, _depth=0):
     """Buffer operations on self.left / self.right found under `node`:
-    list of (buffer, end, kind) with end in front/back and kind in push/pop."""
+    list of (buffer, end, kind) with end in front/back and kind in push/pop.  With `cls` (a ClassDef), calls
+    self.<method>() of that class contribute the operations of the method body."""
     out = []
     for c in ast.walk(node):
+        if cls is not None and _depth < 3 and isinstance(c, ast.Call) and isinstance(c.func, ast.Attribute) and isinstance(c.func.value, ast.Name) \
+                and c.func.value.id == "self":
+            m = next((st for st in cls.body if isinstance(st, ast.FunctionDef) and st.name == c.func.attr), None)
+            if m is not None:
+                out.extend(list_ops(m, cls, _depth + 1))
+                continue
         if isinstance(c, ast.Call) and isinstance(c.func, ast.Attribute) and isinstance(c.func.value, ast.Attribute) \
                 and isinstance(c.func.value.value, ast.Name) and c.func.value.value.id == "self" \
                 and c.func.value.attr in ("left", "right"):
